@@ -63,10 +63,15 @@ fn cl_config(i: usize) -> (Vec<&'static str>, ClVerdict) {
         19 => (vec!["Content-Length: 7\x7f"], ClVerdict::Invalid),
         20 => (vec!["Content-Length: 7", "Content-Length: 8\x01"], ClVerdict::Invalid),
         21 => (vec!["Content-Length: 8\x0b", "Content-Length: 7"], ClVerdict::Invalid),
+        // three and more copies: EVERY copy takes part in the comparison
+        22 => (vec!["Content-Length: 7", "Content-Length: 7", "Content-Length: 8"], ClVerdict::Invalid),
+        23 => (vec!["Content-Length: 7", "Content-Length: 7", "Content-Length: seven"], ClVerdict::Invalid),
+        24 => (vec!["Content-Length: 7", "Content-Length: 7", "Content-Length: 7", "Content-Length: -7"], ClVerdict::Invalid),
+        25 => (vec!["Content-Length: 7", "content-length: 7", "Content-Length: 7", "Content-Length: 7", "Content-Length:"], ClVerdict::Invalid),
         _ => unreachable!(),
     }
 }
-const N_CL: usize = 22;
+const N_CL: usize = 26;
 
 #[derive(Clone, Copy, Debug, PartialEq)]
 enum TeVerdict {
@@ -131,7 +136,7 @@ fn run_matrix_whole(ctx: &mut Ctx, rng: &mut Rng, index: u64) {
     run_matrix(ctx, rng, index, 0)
 }
 fn run_matrix_bytewise(ctx: &mut Ctx, rng: &mut Rng, index: u64) {
-    // quick tier: a stride through the matrix (7 is coprime to the matrix size 5 x 12 x 22 x 17 x 2)
+    // quick tier: a stride through the matrix (7 is coprime to the matrix size 5 x 12 x 26 x 17 x 2)
     let idx = if ctx.tier == Tier::Quick { index * 7 } else { index };
     run_matrix(ctx, rng, idx % matrix_size(), 1)
 }
